@@ -818,6 +818,17 @@ def run(ck: Check):
     scs += directed_scenarios(100000)
     for i in range(n):
         scs.append(gen_scenario(rng, i))
+    # the same kind of scenarios against older broker releases (Fetch v2..v11, ListOffsets v0..v5, Metadata v1..v8):
+    # read_committed needs Fetch >= 4, i.e. a release with transactions
+    from simkit import profiles
+    rng_old = random.Random(ck.seed * 7121 + 303)
+    for i in range(ck.n(40, 600)):
+        sc = gen_scenario(rng_old, 700000 + i)
+        names = profiles.TRANSACTIONAL if sc["iso"] == 1 else list(profiles.BROKER_PROFILES)
+        name = rng_old.choice(names)
+        sc["api_ranges"] = profiles.api_ranges(name)
+        sc["family"] = "old-broker:" + name
+        scs.append(sc)
     t0 = _t.time()
     results = run_scenarios(scs, timeout=ck.n(600, 2400))
     ck.log(f"simulations took {_t.time() - t0:.0f}s")
